@@ -26,7 +26,7 @@ type c20Case struct {
 	Threshold int      `json:"threshold"`
 	Mock      bool     `json:"mock"`
 	Recovery  string   `json:"recovery"` // "inf" | "zero" | "real"
-	Ops       []string `json:"ops"`      // "ok" | "err" | "panic" | "wait"
+	Ops       []string `json:"ops"`      // "ok" | "err" | "panic" | "wait" | "half"
 }
 
 const c20RealRecovery = 60 * time.Millisecond
@@ -76,6 +76,10 @@ func c20Run(t *tr.Writer, id int, c c20Case) {
 	for _, op := range c.Ops {
 		if op == "wait" {
 			time.Sleep(c20RealRecovery + 25*time.Millisecond)
+			continue
+		}
+		if op == "half" { // a wait that does not reach the recovery time by itself
+			time.Sleep(c20RealRecovery * 6 / 10)
 			continue
 		}
 		mu.Lock()
@@ -198,22 +202,40 @@ func runC20(a Args) tr.Summary {
 	var wg sync.WaitGroup
 	var idmu sync.Mutex
 	sem := make(chan struct{}, 16)
-	for i := 0; i < nReal; i++ {
+	// scripted: calls inside the open period must not postpone the recovery (it runs from the last failure)
+	var scripted [][]string
+	for th := 0; th <= 2; th++ {
+		open := []string{}
+		for k := 0; k <= th; k++ {
+			open = append(open, []string{"err", "panic"}[k%2])
+		}
+		scripted = append(scripted,
+			append(append([]string{}, open...), "half", "ok", "half", "ok", "ok"),
+			append(append([]string{}, open...), "half", "err", "half", "ok", "half", "ok", "wait", "ok"),
+			append(append([]string{}, open...), "ok", "half", "ok", "ok", "half", "ok", "ok"))
+	}
+	for i := 0; i < nReal+len(scripted); i++ {
 		th := rng.Intn(3)
 		mock := rng.Intn(2) == 0
 		n := 6 + rng.Intn(6)
 		ops := make([]string, n)
 		for j := range ops {
-			switch k := rng.Intn(10); {
+			switch k := rng.Intn(12); {
 			case k < 5:
 				ops[j] = "err"
 			case k < 6:
 				ops[j] = "panic"
 			case k < 8:
 				ops[j] = "wait"
+			case k < 10:
+				ops[j] = "half"
 			default:
 				ops[j] = "ok"
 			}
+		}
+		if i >= nReal {
+			ops = scripted[i-nReal]
+			th, mock = (i-nReal)/3, i%2 == 0
 		}
 		c := c20Case{th, mock, "real", ops}
 		idmu.Lock()
